@@ -3,13 +3,16 @@
 package verifmodel
 
 import (
-	"runtime"
 	"errors"
 	"io"
 	"net/http"
+	"runtime"
+	"sync"
+	"sync/atomic"
 
 	"github.com/CorentinB/warc/pkg/spooledtempfile"
 	"github.com/gabriel-vasile/mimetype"
+	"github.com/internetarchive/Zeno/internal/verifrt"
 )
 
 // ---- the WARC-writing HTTP client's Do (http.Client.Do on the embedded client): a scripted server. Contract assumed
@@ -38,7 +41,11 @@ type Body struct {
 	Reads    int
 	prefix   string
 	sent     int
+	URL      string      // the request this body answers
+	Written  atomic.Bool // the response's record is in the WARC
 }
+
+var doMu sync.Mutex
 
 var (
 	DoScript    []DoOutcome
@@ -48,14 +55,29 @@ var (
 	ErrBodyRead = errors.New("verifmodel: body read error")
 )
 
+// DelayedWrite: the WARC writer runs in its own goroutine: the record is written (Written) and the feedback token
+// delivered some time after the body has been read, not at once.
+var DelayedWrite bool
+
 func (b *Body) signal() {
-	if b.feedback != nil && !b.signaled {
-		b.signaled = true
-		select {
-		case b.feedback <- struct{}{}:
-		default:
+	if b.signaled {
+		return
+	}
+	b.signaled = true
+	deliver := func() {
+		b.Written.Store(true)
+		if b.feedback != nil {
+			select {
+			case b.feedback <- struct{}{}:
+			default:
+			}
 		}
 	}
+	if DelayedWrite {
+		verifrt.Go(deliver)
+		return
+	}
+	deliver()
 }
 
 func (b *Body) Read(p []byte) (int, error) {
@@ -100,6 +122,7 @@ func (b *Body) Close() error {
 
 func HTTPClientDo(c *http.Client, req *http.Request) (*http.Response, error) {
 	runtime.Gosched() // network I/O: every interleaving with the other goroutines is possible here
+	doMu.Lock() // (the model's own bookkeeping; requests may come from concurrent fetches)
 	i := DoCalls
 	DoCalls++
 	if i >= len(DoScript) {
@@ -107,14 +130,16 @@ func HTTPClientDo(c *http.Client, req *http.Request) (*http.Response, error) {
 	}
 	o := DoScript[i]
 	if o.Err {
+		doMu.Unlock()
 		return nil, ErrNet
 	}
 	var fb chan struct{}
 	if v := req.Context().Value("feedback"); v != nil {
 		fb = v.(chan struct{})
 	}
-	b := &Body{chunks: o.Chunks, readErr: o.ReadErr, feedback: fb, prefix: o.Prefix}
+	b := &Body{chunks: o.Chunks, readErr: o.ReadErr, feedback: fb, prefix: o.Prefix, URL: req.URL.String()}
 	DoBodies = append(DoBodies, b)
+	doMu.Unlock()
 	h := o.Header
 	if h == nil {
 		h = http.Header{}
